@@ -327,7 +327,7 @@ def build_operator(desc):
 
 
 TRUNC = {'none': dict(chi_max=100, svd_min=1e-14), 'chi2': dict(chi_max=2), 'chi3': dict(chi_max=3, svd_min=1e-12),
-         'svd_min': dict(chi_max=100, svd_min=0.1), 'trunc_cut': dict(chi_max=100, svd_min=None, trunc_cut=0.15)}
+         'svd_min': dict(chi_max=100, svd_min=0.1), 'trunc_cut': dict(chi_max=100, trunc_cut=0.15)}
 
 
 def check_apply(case):
@@ -378,4 +378,107 @@ def check_apply(case):
             rec(key + ':ov-not-a-lower-bound', '%s, %s: fidelity %.6g below the reported ov=%.6g' % (name, tname, fid, err.ov))
         if err.eps < 1e-20 and not close(phi, v, 1e-8):
             rec(key + ':eps=0:not-exact', '%s, %s: reported eps=0 but the state differs from the dense O|psi>' % (name, tname))
+    return rec
+
+
+# ------------------------------------------------------------------------------------------------ infinite MPOs
+
+def _density_operator(spec, Lc, n):
+    """Sum of the terms of an infinite specification which start inside the first `Lc` sites (window of `n` sites)."""
+    assert n >= Lc + U.spec_range(spec)
+    return U.spec_dense(spec, n) - U.spec_dense(spec, n, first=Lc)
+
+
+def check_inf(case):
+    """Unary operations on an infinite MPO: the operator on a window, energy densities in infinite states."""
+    spec, rng = case['spec'], np.random.default_rng(case['seed'])
+    rec = Rec()
+    chain, L = spec['chain'], spec['L']
+    site, basis, hc = U.site_of(chain), U.CHAINS[chain][2], bool(spec.get('plus_hc'))
+    H = rec.guard('build', U.build, spec)
+    if H is None:
+        return rec
+    reach = U.spec_range(spec)
+    n = L * (-(-(L + reach) // L))  # a multiple of L which contains every term starting in the first unit cell
+    ref = U.spec_dense(spec, n)
+    if not close(D.mpo_window_dense(H, 0, n), ref):
+        return rec + [('denote:infinite:from_term_list', 'window of %d sites differs from the Kronecker sum of the translated terms' % n)]
+    if H.max_range is None or H.max_range < reach:
+        rec('max_range:too-small', 'max_range=%r but a term has range %d' % (H.max_range, reach))
+    # --- energy densities
+    for Lpsi in case['Lpsi']:
+        psi = U.infinite_state(chain, Lpsi, rng)
+        Lc = int(np.lcm(L, Lpsi))
+        m = Lc + reach
+        e_ref = D.window_expval(D.imps_window(psi, 0, m), _density_operator(spec, Lc, m)) / Lc
+        for name, fct in (('expectation_value', H.expectation_value), ('expectation_value_power', H.expectation_value_power), ('expectation_value_TM', H.expectation_value_TM)):
+            e = rec.guard(name, fct, psi.copy())
+            if e is not None and not close(e, e_ref, 1e-8):
+                rec('%s:infinite' % name, 'unit cells %d (MPO), %d (MPS): got %r, dense window %r' % (L, Lpsi, e, e_ref))
+        H.max_range = None  # (unknown range: the wrapper has to take the transfer matrix route)
+        e = rec.guard('expectation_value', H.expectation_value, psi.copy())
+        H.max_range = reach
+        if e is not None and not close(e, e_ref, 1e-8):
+            rec('expectation_value:infinite:max_range=None', 'got %r, dense window %r' % (e, e_ref))
+    sites = [site] * n
+    # --- dagger, hermiticity
+    Hdag = rec.guard('dagger', H.dagger)
+    if Hdag is not None and rec.guard('dagger:test_sanity', Hdag.test_sanity) is None and not close(D.mpo_window_dense(Hdag, 0, n), ref.conj().T):
+        rec('dagger:dense:infinite', 'dagger() is not the conjugate transpose on a window of %d sites' % n)
+    w = L + 2 * H.max_range
+    dw = ref if w == n else U.spec_dense(spec, w)
+    for eps in (1e-10, 1e-4):
+        truth = decided(fro2(dw - dw.conj().T), 2 * fro2(dw), eps)
+        got = rec.guard('is_hermitian', H.is_hermitian, eps)
+        if truth is not None and got is not None and bool(got) != truth:
+            rec('is_hermitian:infinite:false-%s' % ('negative' if truth else 'positive'), 'is_hermitian(eps=%g)=%s' % (eps, got))
+    # --- term lists
+    if basis is not None and not hc:
+        kw = dict(ignore=[]) if chain == 'F:N' else {}
+        tl = rec.guard('to_TermList', H.to_TermList, basis, **kw)
+        if tl is not None and not close(D.window_terms_dense(sites, L, n, tl.terms, tl.strength, jw=False), ref):
+            rec('to_TermList:dense:infinite', 'translates of the returned terms differ from the operator on a window of %d sites' % n)
+        if {op for t in spec['terms'] for op, _ in t} <= set(basis) - {'Id'}:
+            for i in range(L):
+                for ops in basis_strings(basis, min(3, n - i)):
+                    S = D.term_dense(sites, [(op, i + k) for k, op in enumerate(ops)])
+                    pre = rec.guard('prefactor', H.prefactor, i, ops)
+                    expect = np.vdot(S, ref) / np.vdot(S, S)
+                    if pre is not None and not close(pre, expect):
+                        rec('prefactor:infinite:%s' % ('present' if abs(expect) > 1e-12 else 'absent'), 'prefactor(%d, %r)=%r, dense %r' % (i, ops, pre, expect))
+    # --- in-place transformations on fresh copies
+    psi = U.infinite_state(chain, L, rng)
+    m = L + reach
+    e_ref = D.window_expval(D.imps_window(psi, 0, m), _density_operator(spec, L, m)) / L
+    for name, fct, args in (('sort_legcharges', 'sort_legcharges', ()), ('enlarge_mps_unit_cell', 'enlarge_mps_unit_cell', (2,)), ('group_sites', 'group_sites', (2,))):
+        Hx, n2 = U.build(spec), n
+        if name == 'group_sites' and L % 2:
+            Hx.enlarge_mps_unit_cell(2)
+            n2 = 2 * n
+        if rec.guard(name, getattr(Hx, fct), *args) is not None or rec.guard(name + ':test_sanity', Hx.test_sanity) is not None:
+            continue
+        if name == 'group_sites':
+            perm = D.group_perm([Hx.sites[i % Hx.L] for i in range(n2 // 2)])
+            same = close(D.mpo_window_dense(Hx, 0, n2 // 2)[np.ix_(perm, perm)], U.spec_dense(spec, n2))
+        else:
+            same = close(D.mpo_window_dense(Hx, 0, n), ref)
+            e = rec.guard(name + ':expectation_value', Hx.expectation_value, psi.copy())
+            if e is not None and not close(e, e_ref, 1e-8):
+                rec(name + ':expectation_value:infinite', 'energy density %r after %s, dense window %r' % (e, name, e_ref))
+        if not same:
+            rec(name + ':dense:infinite', 'operator on a window changed by %s' % name)
+    # --- propagators: the part of U(t) inside a window is the propagator of the open chain with the terms inside
+    if not hc:
+        fin = dict(spec, bc='finite', L=n, terms=[], coefs=[])
+        for t, c in zip(spec['terms'], spec['coefs']):
+            lo, hi = min(i for _, i in t), max(i for _, i in t)
+            for shift in range(-(lo // L) * L, n, L):
+                if 0 <= lo + shift and hi + shift < n:
+                    fin['terms'].append([[op, i + shift] for op, i in t])
+                    fin['coefs'].append(c)
+        Hfin = U.build(fin)
+        for approx in ('I', 'II'):
+            UU, Ufin = rec.guard('make_U_%s:infinite' % approx, H.make_U, 0.03 + 0.05j, approx), Hfin.make_U(0.03 + 0.05j, approx)
+            if UU is not None and rec.guard('make_U:test_sanity', UU.test_sanity) is None and not close(D.mpo_window_dense(UU, 0, n), D.mpo_dense(Ufin), 1e-9):
+                rec('make_U_%s:infinite:window' % approx, 'U_%s of the infinite MPO restricted to %d sites differs from U_%s of the open chain' % (approx, n, approx))
     return rec
